@@ -26,7 +26,7 @@ func genC03(t *rapid.T) C03Case {
 		BadVars:  rapid.Bool().Draw(t, "badvars"),
 		Custom:   true, Stateful: true, Consts: true, Aliases: true, BoolW: 6,
 	}}
-	tree := wrapRoot(g.Expr(rootTy(t), g.Depth))
+	tree := wrapRoot(g.Program(rootTy(t)))
 	fixEmptyLists(tree)
 	u := UniverseFor(t, tree, false)
 	u.Stateless = drawStateless(t)
